@@ -29,6 +29,11 @@ def R1_similarity(ctx):
         if r.end == "return":
             got[r.sel.get(("arg", 1))] = r.ret
     ctx.check(got.get("AcceptAll") == ("const", "bool", False), "is_similar:AcceptAll", "AcceptAll.is_similar(_) is %s; both k-shortest-path algorithms reject a candidate when is_similar is true, so 'accept all' must be the constant false" % (short(got.get("AcceptAll")) if got.get("AcceptAll") else None), b.where(), detail="false")
+    # (an or-pattern merges variants into one arm: the label is then the group)
+    for k_ in list(got):
+        if isinstance(k_, tuple) and k_ and k_[0] == "otherwise":
+            for v_ in k_[1]:
+                got.setdefault(v_, rewrite(got[k_], lambda y: None))
     for v in ("EdgeIdCosineSimilarity", "DistanceWeightedCosineSimilarity"):
         c = as_cmp(got[v]) if v in got else None
         ok = bool(c) and canon_cmp(c) == ("Le", ("field", ("variant", ("arg", 1), v), "threshold"), ("arg", 2))
@@ -36,9 +41,9 @@ def R1_similarity(ctx):
     variants = {v["name"] for v in F.adts[RSF]["variants"]}
     ctx.check(variants == set(got), "is_similar:variants", "variants %s vs decided %s" % (sorted(variants), sorted(map(str, got))), b.where())
     tb = F.need(RSF + "::test_similarity")
-    oks = [r for r in table(tb) if r.end == "return" and result_variant(r.ret) == "Ok"]
+    oks = [r for r in table(tb) if r.end == "return" and ok_value(r) is not None]
     want = ("call", RSF + "::is_similar", (("arg", 1), ("call", RSF + "::rank_similarity", (("arg", 1), ("arg", 2), ("arg", 3), ("arg", 4)))))
-    ctx.check(len(oks) == 1 and unmut(agg_payload(oks[0].ret)) == want, "test_similarity", "test_similarity is not is_similar(rank_similarity(a, b, si))", tb.where(), detail="is_similar(rank(a,b))")
+    ctx.check(len(oks) == 1 and unmut(ok_value(oks[0])) == want, "test_similarity", "test_similarity is not is_similar(rank_similarity(a, b, si))", tb.where(), detail="is_similar(rank(a,b))")
     rb = F.need(RSF + "::rank_similarity")
     rows = [r for r in table(rb) if r.end == "return" and r.sel.get(("arg", 1)) == "AcceptAll"]
     ctx.check(len(rows) == 1 and result_variant(rows[0].ret) == "Ok" and agg_payload(rows[0].ret)[0] == "const", "rank:AcceptAll", "rank_similarity(AcceptAll) is not a constant", rb.where())
@@ -166,7 +171,7 @@ def _scan_accepted(ctx, F, b, tm, push, cand, sol, flag, false_blocks, gsw):
     if not rows or not all(r.conds for r in rows):
         return "unreadable scan loop"
     full_rows = None
-    if via is None and sb.raw.get("inlined"):
+    if via is None and (sb.raw.get("inlined") or flag is None):
         # the scan was written out in place from a helper: what its verdict leads to is read on the paths that continue
         # past the loop (the literal Ok(true)/Ok(false) the copy ends with decides the caller's `if`)
         try:
@@ -243,7 +248,10 @@ def _scan_accepted(ctx, F, b, tm, push, cand, sol, flag, false_blocks, gsw):
             continue
         if some is False:
             # exhausted: nothing rejected here
-            if via is None:
+            if via is None and flag is None:
+                if cleared_after(r) is True:
+                    return "the candidate is rejected after all accepted routes passed both tests"
+            elif via is None:
                 if r.env.get(flag) is not None and clean(r.env[flag]) == ("const", "bool", False) or (gsw not in b.reachable(start=r.blocks[-1], removed_blocks=list(false_blocks)) and cleared_after(r) is not False) or cleared_after(r) is True:
                     return "the candidate is rejected after all accepted routes passed both tests"
             else:
@@ -256,7 +264,10 @@ def _scan_accepted(ctx, F, b, tm, push, cand, sol, flag, false_blocks, gsw):
         n_rej += 1
         if via is None:
             # from where the scan is left, the gate of the push is reached only through a block that clears the flag
-            cleared = (r.env.get(flag) is not None and clean(r.env[flag]) == ("const", "bool", False)) or gsw not in b.reachable(start=r.blocks[-1], removed_blocks=list(false_blocks)) or cleared_after(r) is True
+            if flag is None:
+                cleared = cleared_after(r) is True
+            else:
+                cleared = (r.env.get(flag) is not None and clean(r.env[flag]) == ("const", "bool", False)) or gsw not in b.reachable(start=r.blocks[-1], removed_blocks=list(false_blocks)) or cleared_after(r) is True
             if not cleared:
                 return "a matching accepted route does not clear the acceptance flag"
         else:
@@ -280,6 +291,10 @@ def _scan_accepted(ctx, F, b, tm, push, cand, sol, flag, false_blocks, gsw):
         if not hit:
             return "the acceptance flag is not cleared when the helper reports a match"
     return None
+
+
+def _controlling13(b, tm, block):
+    return controlling(b, tm, block)
 
 
 def controlling(b, tm, block):
@@ -320,18 +335,47 @@ def R2_single_via(ctx):
     # gate variable
     ga = gate_var_analysis(b, tm, push)
     if ga is None:
-        ctx.bad("push-gated", "the push of a candidate is not guarded by an acceptance flag", push.where())
-        return
-    flag, false_blocks, gsw = ga
-    ctx.ok("push-gated", "flag local %d" % flag)
-    reasons = {"loop": False}
+        # no mutable flag: the push may be guarded by the verdicts themselves (`if !has_loop && !has_match { push }`)
+        ctl = _controlling13(b, tm, push.bb)
+        loop_ok = any(t[0] == "call" and t[1] == OPS + "route_contains_loop" and t[2][0] == cand and truth is False for _, t, truth in ctl)
+        if not loop_ok:
+            # decided path by path within one turn of the via loop: every path that reaches the push has seen the loop test fail
+            lpo = innermost_loop(b, push.bb)
+            try:
+                trows = [r for r in iteration_table(b, lpo[0], max_paths=30000) if push.bb in r.blocks] if lpo else []
+            except TooManyPaths:
+                trows = []
+            def saw_no_loop(r):
+                for dt, l, _ in r.conds:
+                    d = clean(dt)
+                    neg = False
+                    while d[0] == "un" and d[1] == "Not":
+                        d, neg = d[2], not neg
+                    if d[0] == "call" and d[1] == OPS + "route_contains_loop" and d[2][0] == clean(cand) and not isinstance(l, tuple):
+                        return (cond_truth(l) != neg) is False
+                return False
+            loop_ok = bool(trows) and all(saw_no_loop(r) for r in trows)
+        if not loop_ok:
+            ctx.bad("push-gated", "the push of a candidate is not guarded by an acceptance flag or by the verdicts of the loop test and the scan", push.where())
+            return
+        ctx.ok("push-gated", "guarded by the verdicts directly")
+        ctx.ok("reject:loop", "route_contains_loop(candidate) == false controls the push")
+        why = _scan_accepted(ctx, F, b, tm, push, clean(cand), clean(sol), None, [], None)
+        ctx.check(why is None, "reject:duplicate-or-similar", "the candidate is not compared (exact duplicate and similarity) with every already accepted route: %s" % why, push.where(), detail="for each accepted: duplicate || too_similar => reject")
+        flag, false_blocks, gsw = None, [], None
+    else:
+        flag, false_blocks, gsw = ga
+        ctx.ok("push-gated", "flag local %d" % flag)
+    reasons = {"loop": flag is None}
     for fb in false_blocks:
         for _, t in controlling_true(b, tm, fb):
             if t[0] == "call" and t[1] == OPS + "route_contains_loop" and t[2][0] == cand:
                 reasons["loop"] = True
-    ctx.check(reasons["loop"], "reject:loop", "a candidate containing a loop is not rejected (flag cleared when route_contains_loop(candidate) is true)", push.where(), detail="route_contains_loop(candidate) => reject")
-    why = _scan_accepted(ctx, F, b, tm, push, clean(cand), clean(sol), flag, false_blocks, gsw)
-    ctx.check(why is None, "reject:duplicate-or-similar", "the candidate is not compared (exact duplicate and similarity) with every already accepted route: %s" % why, push.where(), detail="for each accepted: duplicate || too_similar => reject")
+    if flag is not None:
+        ctx.check(reasons["loop"], "reject:loop", "a candidate containing a loop is not rejected (flag cleared when route_contains_loop(candidate) is true)", push.where(), detail="route_contains_loop(candidate) => reject")
+    why = _scan_accepted(ctx, F, b, tm, push, clean(cand), clean(sol), flag, false_blocks, gsw) if flag is not None else None
+    if flag is not None:
+        ctx.check(why is None, "reject:duplicate-or-similar", "the candidate is not compared (exact duplicate and similarity) with every already accepted route: %s" % why, push.where(), detail="for each accepted: duplicate || too_similar => reject")
     # the two tests
     tid = F.need(K + "single_via_paths_algorithm::test_id_similarity")
     rows = [r for r in table(tid, max_paths=100000) if r.end == "return"]
